@@ -38,9 +38,9 @@ func (e *Engine) rootsAtParam(v ssa.Value, p *ssa.Parameter) bool {
 }
 
 func runC11(e *Engine, r *Report, tier string) {
-	r.Explanation = "C11, structural clauses of the share-transfer routine (located as the precompile function that rewrites delegations). Decided: R1 alias guard — sender == recipient is refused (or returns) before anything is read or written, otherwise the second record would be written from a stale copy; R2 the amount subtracted from the sender's shares and added to the recipient's is the same value, and `sender shares >= amount` (else error) dominates; R3 no validator-mutating staking API is reachable; R4 reward withdrawal of the sender precedes every delegation write, on the remove branch reference-count decrement and starting-info delete follow on every success path, for a new recipient period increment precedes and reference-count increment + starting-info set follow, and every starting-info Stake is recomputed as validator.TokensFromSharesTruncated(<shares>) — never share/token arithmetic on the old stake; R5 the receiving-redelegation refusal dominates all writes. Not decided: SDK invariants after arbitrary histories, arithmetic inside x/staking and x/distribution."
+	r.Explanation = "C11, structural clauses of the share-transfer routine (located as the precompile function that rewrites delegations). Decided: R1 alias guard — sender == recipient is refused (or returns) before anything is read or written, otherwise the second record would be written from a stale copy; R2 the amount subtracted from the sender's shares and added to the recipient's is the same value, and `sender shares >= amount` (else error) dominates, and the sender's delegation is removed only on a zero test of the record's exact remaining Shares (not a truncated view); R3 no validator-mutating staking API is reachable; R4 reward withdrawal of the sender precedes every delegation write, on the remove branch reference-count decrement and starting-info delete follow on every success path, for a new recipient period increment precedes and reference-count increment + starting-info set follow, and every starting-info Stake is recomputed as validator.TokensFromSharesTruncated(<shares>) — never share/token arithmetic on the old stake; R5 the receiving-redelegation refusal dominates all writes. Not decided: SDK invariants after arbitrary histories, arithmetic inside x/staking and x/distribution."
 	r.Rule("R1", "sender == recipient refused before any read/write", 1, "")
-	r.Rule("R2", "same amount subtracted and added; sufficiency check dominates", 2, "")
+	r.Rule("R2", "same amount subtracted and added; sufficiency check dominates; removal only at exactly zero remaining shares", 3, "")
 	r.Rule("R3", "no validator-mutating staking API reachable from the routine", 1, "")
 	r.Rule("R4", "rewards withdrawn first; F1 bookkeeping paired per branch; stake recomputed from shares", 6, "")
 	r.Rule("R5", "receiving-redelegation refusal dominates all writes", 1, "")
@@ -238,6 +238,62 @@ func runC11(e *Engine, r *Report, tier string) {
 			pos = e.InstrPos(off)
 		}
 		r.Check(ok, "R4", key+" remove-branch", pos, "after RemoveDelegation every success path decrements the reference count and deletes the starting info", "a delegation is removed without releasing its historical-rewards reference or its starting info")
+	}
+	// R2: the delegation is removed only when its remaining shares are exactly zero — the zero test is on the Shares of the
+	// very record that is removed, not on a truncated / rounded view of it
+	if removeDel != nil {
+		args := nonCtxArgs(removeDel)
+		var delKey string
+		for _, a := range args {
+			if strings.HasSuffix(namedTypeName(a.Type()), "staking/types.Delegation") {
+				delKey = vkey(a, 0)
+			}
+		}
+		verdict, why := 0, "the removal of the sender's delegation is not guarded by a zero test of its remaining shares"
+		for _, g := range GuardsOf(removeDel) {
+			ci, ok := NormCond(g)
+			if !ok || ci.Call == nil {
+				continue
+			}
+			var subj ssa.Value
+			switch {
+			case ci.Op == "call:IsZero":
+				if a := callArgs(ci.Call); len(a) >= 1 {
+					subj = a[0]
+				}
+			case ci.Op == "==" && ci.Y != nil && isZeroValue(ci.Y):
+				subj = ci.X
+			case ci.Op == "<=" && ci.Y != nil && isZeroValue(ci.Y):
+				subj = ci.X
+			case ci.Op == "!call:IsPositive":
+				if a := callArgs(ci.Call); len(a) >= 1 {
+					subj = a[0]
+				}
+			}
+			if subj == nil {
+				continue
+			}
+			sk := vkey(subj, 0)
+			exact := delKey != "" && (sk == delKey+".Shares" || sk == "GetShares("+delKey+")")
+			if !exact {
+				// the tested value is the same Dec that is stored into <del>.Shares
+				allInstrs(fn, func(i ssa.Instruction) {
+					if st, ok := i.(*ssa.Store); ok {
+						if fa, ok := st.Addr.(*ssa.FieldAddr); ok {
+							if n, _, _ := fieldName(fa); n == "Shares" && vkey(st.Val, 0) == sk {
+								exact = true
+							}
+						}
+					}
+				})
+			}
+			if exact {
+				verdict, why = 1, "removed only when the record's own remaining Shares are exactly zero"
+			} else if verdict == 0 {
+				verdict, why = -1, "the delegation is removed on a zero test of "+regNames.ReplaceAllString(sk, "")+", which is not the record's exact remaining Shares (a truncated or rounded view is zero while a fraction of a share remains): the sender loses the remainder and delegator shares no longer sum to the validator's"
+			}
+		}
+		r.Check(verdict == 1, "R2", key+" remove-iff-zero", e.InstrPos(removeDel), why, why)
 	}
 	if incPeriod == nil {
 		r.Fail("R4", key+" new-recipient", e.Pos(fn.Pos()), "UNRESOLVED-ANCHOR: no IncrementValidatorPeriod for a new recipient")
